@@ -327,6 +327,21 @@ theorem cubic_real_branch_defect (F : CubicFns α)
     ∀ x, solveNormalizedCubic F 0 0 1 = (1, [x]) → x * x * x + 0 * (x * x) + 0 * x + 1 ≠ 0 :=
   Roots.cubic_real_branch_defect F hs hcs hpow
 
+/-- The proposed repair (`Model.Roots.solveNormalizedCubicStable`: cube-root argument
+`q > 0 ? -q/2 - sqrt D : -q/2 + sqrt D`) satisfies the FULL statement: for D > 0 the value returned
+is always a root, without the side condition of `solveNormalizedCubic_real_partial`.  The check
+executes this variant in the correspondence only when ImathRoots.h has exactly this form. -/
+theorem solveNormalizedCubicStable_real (F : CubicFns α) (r s t : α) (hD : 0 < cubicD r s t)
+    (hs : F.sqrt (cubicD r s t) * F.sqrt (cubicD r s t) = cubicD r s t ∧ 0 ≤ F.sqrt (cubicD r s t))
+    (hcs : (F.copysign1 (cardanoAStable F r s t) = 1 ∨ F.copysign1 (cardanoAStable F r s t) = -1) ∧
+      0 ≤ F.copysign1 (cardanoAStable F r s t) * cardanoAStable F r s t)
+    (hpow : F.pow (F.copysign1 (cardanoAStable F r s t) * cardanoAStable F r s t) (1 / 3) *
+        F.pow (F.copysign1 (cardanoAStable F r s t) * cardanoAStable F r s t) (1 / 3) *
+        F.pow (F.copysign1 (cardanoAStable F r s t) * cardanoAStable F r s t) (1 / 3) =
+      F.copysign1 (cardanoAStable F r s t) * cardanoAStable F r s t) :
+    ∃ x, solveNormalizedCubicStable F r s t = (1, [x]) ∧ x * x * x + r * (x * x) + s * x + t = 0 :=
+  Roots.solveNormalizedCubicStable_real F r s t hD hs hcs hpow
+
 /-- `solveNormalizedCubic`, D ≤ 0 (complex intermediates): two (D = 0) or three (D < 0) values are
 written and each of them is a root -/
 theorem solveNormalizedCubic_complex_roots (F : CubicFns α) (r s t : α) (w : α)
@@ -361,6 +376,19 @@ example : ∃ x, solveNormalizedCubic (exF (9 / 2) 1 2 (0, 0) (0, 0) 0) 0 6 (-7)
   · rw [hA]; simp only [exF]; norm_num
   · rw [hA]; simp only [exF]; norm_num
   · rw [hA]; norm_num
+
+/-- non-vacuity of `solveNormalizedCubicStable_real` at the point where the original fails:
+x³ + 1 (p = 0, q = 1, D = 1/4): A = -1/2 - 1/2 = -1, u = -1, v = 0, x = -1. -/
+example : ∃ x, solveNormalizedCubicStable (exF (1 / 2) (-1) 1 (0, 0) (0, 0) 0) 0 0 1 = (1, [x]) ∧
+    x * x * x + 0 * (x * x) + 0 * x + 1 = 0 := by
+  have hD : cubicD (0 : ℚ) 0 1 = 1 / 4 := by unfold cubicD cubicP cubicQ; norm_num
+  have hA : cardanoAStable (exF (1 / 2) (-1) 1 (0, 0) (0, 0) 0) 0 0 1 = -1 := by
+    unfold cardanoAStable cubicQ; rw [hD]; simp only [exF]; norm_num
+  apply solveNormalizedCubicStable_real
+  · rw [hD]; norm_num
+  · rw [hD]; simp only [exF]; norm_num
+  · rw [hA]; simp only [exF]; norm_num
+  · rw [hA]; simp only [exF]; norm_num
 
 /-- the FULL statement of the D > 0 branch is false: a counter-model over ℚ at (r,s,t) = (0,0,1) -/
 theorem cubic_real_full_statement_false :
